@@ -39,6 +39,10 @@ theorem split_laws {jm : DHash â†’ List UInt8 â†’ List UInt8} {H : List UInt8 â†
     simp only [List.mem_singleton] at hr
     subst hr
     simp [Split.embed]
+  Â· intro j hj
+    have := hw j hj
+    simp only [Split.embed, List.length_append]
+    omega
   Â· intro j j' ex hj hj' hex
     rw [split_finalExcl s src j (hw j hj)] at hex
     injection hex with hex
